@@ -22,7 +22,7 @@ def run(ctx):
                "KeepRaw bytes of the traversed MultiEraTx (M3) or through fee / vkey / metadata labels (M1)")
     ctx.assume("blocks have as many witness sets as bodies and distinct aux keys (others are skipped: property silent)")
 
-    max_tx = 4 if ctx.thorough else 3
+    max_tx = 5 if ctx.thorough else 3
     cfg = ctx.path("MC.cfg")
     src = open(os.path.join(vlib.SPEC, SPEC_DIR, "MCBlockTraverse.cfg")).read()
     open(cfg, "w").write(src.replace("MaxTx = 3", "MaxTx = %d" % max_tx))
